@@ -500,6 +500,52 @@ fn view_set(field: &str, v: u64, raw: &[u8]) -> Option<Vec<u8>> {
     })
 }
 
+/// independent bitwise CRC-8 (poly 0x07, init 0) used only to re-fix the PEC of swept packets
+fn crc8_ref(data: &[u8]) -> u8 {
+    let mut c: u8 = 0;
+    for b in data {
+        c ^= *b;
+        for _ in 0..8 {
+            c = if c & 0x80 != 0 { (c << 1) ^ 7 } else { c << 1 };
+        }
+    }
+    c
+}
+
+fn fnv(mut h: u64, s: &str) -> u64 {
+    for b in s.as_bytes() {
+        h = (h ^ (*b as u64)).wrapping_mul(0x100000001b3);
+    }
+    (h ^ 10).wrapping_mul(0x100000001b3)
+}
+
+fn dec_obs(c: &MCTPSMBusContext, p: &[u8]) -> String {
+    let r = catch_unwind(AssertUnwindSafe(|| match c.decode_packet(p) {
+        Ok((t, payload)) => format!("ok {} {} {}", type_name(&t), offset_of(p, payload), payload.len()),
+        Err((t, e)) => format!("err {} {}", type_name(&t), err_name(&e)),
+    }));
+    r.unwrap_or_else(|_| panic_text())
+}
+
+fn proc_obs(c: &MCTPSMBusContext, p: &[u8], buf0: &[u8]) -> String {
+    let mut b = buf0.to_vec();
+    let r = catch_unwind(AssertUnwindSafe(|| match c.process_packet(p, &mut b) {
+        Ok(((t, payload), n)) => format!(
+            "ok {} {} {} {}",
+            type_name(&t),
+            offset_of(p, payload),
+            payload.len(),
+            match n {
+                Some(n) => format!("some {}", n),
+                None => "none".to_string(),
+            }
+        ),
+        Err((t, e)) => format!("err {} {}", type_name(&t), err_name(&e)),
+    }));
+    let res = r.unwrap_or_else(|_| panic_text());
+    format!("{} | {} | {}", res, hex(&b), eids(c))
+}
+
 impl Exec {
     fn handle(&mut self, line: &str) -> String {
         let toks: Vec<&str> = line.split_whitespace().collect();
@@ -745,6 +791,76 @@ impl Exec {
                     Ok(v) => format!("{:02x}", v),
                     Err(_) => panic_text(),
                 })
+            }
+            // bulk sweeps (thorough tier): 65 536 variants of one packet, two byte positions swept,
+            // answered by a digest of all observations (same text, same FNV-1a as the Lean driver)
+            ["decsweep", pkt, i, j, mode] => {
+                let p0 = parse_bytes(pkt)?;
+                let i: usize = i.parse().ok()?;
+                let j: usize = j.parse().ok()?;
+                let fix = *mode == "fix";
+                let c = MCTPSMBusContext::new(0x10, &[], &[]);
+                let mut h: u64 = 0xcbf29ce484222325;
+                let (mut nok, mut nerr, mut npanic) = (0u32, 0u32, 0u32);
+                for a in 0..=255u8 {
+                    for b in 0..=255u8 {
+                        let mut q = p0.clone();
+                        if i < q.len() {
+                            q[i] = a;
+                        }
+                        if j < q.len() {
+                            q[j] = b;
+                        }
+                        if fix && !q.is_empty() {
+                            let n = q.len() - 1;
+                            q[n] = crc8_ref(&q[..n]);
+                        }
+                        let obs = dec_obs(&c, &q);
+                        if obs.starts_with("ok") {
+                            nok += 1
+                        } else if obs.starts_with("err") {
+                            nerr += 1
+                        } else {
+                            npanic += 1
+                        }
+                        h = fnv(h, &obs);
+                    }
+                }
+                Some(format!("sweep {} {} {} {}", h, nok, nerr, npanic))
+            }
+            ["procsweep", id, pkt, i, j, buf] => {
+                let p0 = parse_bytes(pkt)?;
+                let i: usize = i.parse().ok()?;
+                let j: usize = j.parse().ok()?;
+                let buf0 = parse_bytes(buf)?;
+                let c = self.ctxs.get(*id)?;
+                let mut h: u64 = 0xcbf29ce484222325;
+                let (mut nok, mut nerr, mut npanic) = (0u32, 0u32, 0u32);
+                for a in 0..=255u8 {
+                    for b in 0..=255u8 {
+                        let mut q = p0.clone();
+                        if i < q.len() {
+                            q[i] = a;
+                        }
+                        if j < q.len() {
+                            q[j] = b;
+                        }
+                        if !q.is_empty() {
+                            let n = q.len() - 1;
+                            q[n] = crc8_ref(&q[..n]);
+                        }
+                        let obs = proc_obs(c, &q, &buf0);
+                        if obs.starts_with("ok") {
+                            nok += 1
+                        } else if obs.starts_with("err") {
+                            nerr += 1
+                        } else {
+                            npanic += 1
+                        }
+                        h = fnv(h, &obs);
+                    }
+                }
+                Some(format!("sweep {} {} {} {}", h, nok, nerr, npanic))
             }
             // bulk sweep of get_length over all (b1, b2) for a fixed b0 and continuation:
             // answers "ok <count> <mismatches> <first mismatch or ->"
